@@ -13,6 +13,7 @@ mkdir -p $VC/evidence
 ids="$@"
 [ -z "$ids" ] && ids=$(ls /verif/seeded)
 for id in $ids; do
+  [ -d /verif/seeded/$id ] || { echo "$id: no such seed"; continue; }
   d=/verif/seeded/$id
   prop=$(python3 -c "import json;print(json.load(open('$d/meta.json'))['property'])" 2>/dev/null)
   [ -z "$prop" ] && prop=${id%%_*}
